@@ -1923,6 +1923,16 @@ def _math_floor(it, args, kw):
     return Unknown("floor")
 
 
+def _math_gcd(it, args, kw):
+    import math
+    g = 0
+    for v in args:
+        if not (is_num(v) and v.is_const() and v.const_value().denominator == 1):
+            return Unknown("gcd")
+        g = math.gcd(g, int(v.const_value()))
+    return num(g)
+
+
 def _isnan(it, args, kw):
     v = args[0]
     if v is NAN:
@@ -2099,6 +2109,8 @@ DEFAULT_EXT: Dict[str, Callable] = {
     "numpy.nan": None,  # attribute, handled below
     "decimal.Decimal": _decimal,
     "math.floor": _math_floor,
+    "math.gcd": _math_gcd,
+    "numpy.gcd": _math_gcd,
     "numpy.floor": _math_floor,
     "math.isnan": _isnan,
     "numpy.isnan": _isnan,
